@@ -92,6 +92,11 @@ extern int vh_mutex_unlock(pthread_mutex_t *m);
 #define pthread_mutex_lock(m) vh_mutex_lock(m)
 #define pthread_mutex_trylock(m) vh_mutex_trylock(m)
 #define pthread_mutex_unlock(m) vh_mutex_unlock(m)
+extern int vh_cond_wait(pthread_cond_t *c, pthread_mutex_t *m);
+extern int vh_cond_broadcast(pthread_cond_t *c);
+#define pthread_cond_wait(c, m) vh_cond_wait(c, m)
+#define pthread_cond_broadcast(c) vh_cond_broadcast(c)
+#define pthread_cond_signal(c) vh_cond_broadcast(c)
 extern int vh_pthread_create(pthread_t *t, const pthread_attr_t *a, void *(*fn)(void *), void *arg);
 extern int vh_pthread_join(pthread_t t, void **ret);
 #define pthread_create vh_pthread_create
